@@ -174,8 +174,36 @@ def region_scalar(rng, form=None, region=None, exact=True, unit=False):
         t = rng.choice(pool)
         desc = ("S", t, qgen.number_of(t, rng.choice(["auto", "auto", "complex", "np.complex128"])))
     if form == "mixed":
-        return g.scalar(desc[2], is_mixed=True)
+        return mixed_scalar_by(rng.choice(MIXED_ROUTES), desc[2])
     return qgen.build(("U", desc) if form.startswith("My") else desc)
+
+
+# Every calling convention that yields a scalar box "on which the Born rule has already been applied":
+# they differ in the CLASS of the box and in which constructor arguments its methods (dagger, subs, ...)
+# have to forward.
+MIXED_ROUTES = ("MixedScalar(z)", "scalar(z,is_mixed=True)", "scalar(z,True)", "Scalar(z,is_mixed=True)",
+                "Scalar(z,name='w',is_mixed=True)", "Scalar(z,complex,'w',True)", "MyMixed(z)")
+_MY_MIXED = []
+
+
+def mixed_scalar_by(route, z):
+    _, g = lib()
+    if not _MY_MIXED:
+        _MY_MIXED.append(type("MyMixed", (g.MixedScalar,), {}))     # a trivial user subclass
+    return {
+        "MixedScalar(z)": lambda: g.MixedScalar(z),
+        "scalar(z,is_mixed=True)": lambda: g.scalar(z, is_mixed=True),
+        "scalar(z,True)": lambda: g.scalar(z, True),
+        "Scalar(z,is_mixed=True)": lambda: g.Scalar(z, is_mixed=True),
+        "Scalar(z,name='w',is_mixed=True)": lambda: g.Scalar(z, name="w", is_mixed=True),
+        "Scalar(z,complex,'w',True)": lambda: g.Scalar(z, complex, "w", True),
+        "MyMixed(z)": lambda: _MY_MIXED[0](z),
+    }[route]()
+
+
+def mixed_route_of(box):
+    """The route as far as it can be read off the box (class, custom name)."""
+    return "%s%s" % (type(box).__name__, "" if box._name == "scalar" else "+name")
 
 
 def scalar_form(box):
@@ -573,6 +601,46 @@ def compare_counts(real, model):
 
 # ------------------------------------------------------------------ one circuit
 
+def check_adjoint(rep, c, m, case, tags, double=True):
+    """circuit.dagger() evaluates (mixed) to the conjugate transpose of m = circuit.eval(mixed=True);
+    for circuits with scalar boxes also the double dagger evaluates to m again."""
+    qc, g = lib()
+    if any(bad_encode(b.dagger()) for b in c.boxes if isinstance(b, qc.Measure)):
+        rep.fail(F22_SIG, case, "a Measure of the circuit has a dagger whose dom/cod are not "
+                 "its cod/dom, so circuit.dagger() is ill-typed")
+        return
+    md, why = guarded(rep, c, "dagger().eval(mixed=True)", lambda: c.dagger().eval(mixed=True))
+    if why is not None:
+        if why != "f3":
+            rep.fail("eval_raises:" + err_class(why), case, "dagger: " + repr(why))
+        return
+    rep.count("clause_adjoint_checked")
+    scalars = [b for b in c.boxes if isinstance(b, g.Scalar)]
+    for b in scalars:
+        rep.count("adjoint_scalar:%s:%s" % (scalar_form(b), data_region(b.data)))
+    want = cq_dagger_array(m)
+    if not close(md.array, want):
+        rep.fail("dagger_not_adjoint:" + "+".join(tags), case,
+                 "circuit.dagger().eval(mixed=True) = %s is not the conjugate transpose %s of "
+                 "circuit.eval(mixed=True)" % (
+                     np.round(np.asarray(md.array).reshape(-1), 6).tolist()[:16],
+                     np.round(want, 6).tolist()[:16]))
+        return
+    if scalars and double:
+        mdd, why = guarded(rep, c, "dagger().dagger().eval(mixed=True)",
+                           lambda: c.dagger().dagger().eval(mixed=True))
+        if why is not None:
+            if why != "f3":
+                rep.fail("eval_raises:" + err_class(why), case, "double dagger: " + repr(why))
+            return
+        rep.count("clause_double_dagger_checked")
+        if not close(mdd.array, m.array):
+            rep.fail("double_dagger_not_identity:" + "+".join(tags), case,
+                     "circuit.dagger().dagger().eval(mixed=True) = %s, circuit.eval(mixed=True) = %s" % (
+                         np.round(np.asarray(mdd.array).reshape(-1), 6).tolist()[:16],
+                         np.round(np.asarray(m.array).reshape(-1), 6).tolist()[:16]))
+
+
 def check_circuit(rep, drv, c, cls, model_budget, rng, adjoint=True):
     qc, g = lib()
     case = describe(c)
@@ -662,23 +730,12 @@ def check_circuit(rep, drv, c, cls, model_budget, rng, adjoint=True):
             rep.fail("pure_mixed_not_doubled", case,
                      "eval(mixed=True) is not conj(U) (x) U of eval(mixed=False)")
     # --- adjoints: the dagger of a circuit evaluates to the adjoint (Encode / MixedState and
-    #     their daggers included).  Mixed scalars are left out: `Scalar.dagger` forgets
-    #     `is_mixed`, which the property does not speak about.
-    if adjoint and rng.random() < 0.6 and not any(
-            box_tag(b) in ("Channel", "Scalar(mixed)") for b in c.boxes):
-        if any(bad_encode(b.dagger()) for b in c.boxes if isinstance(b, qc.Measure)):
-            rep.fail(F22_SIG, case, "a Measure of the circuit has a dagger whose dom/cod are not "
-                     "its cod/dom, so circuit.dagger() is ill-typed")
-        else:
-            md, why = guarded(rep, c, "dagger().eval(mixed=True)",
-                              lambda: c.dagger().eval(mixed=True))
-            if why is None:
-                rep.count("clause_adjoint_checked")
-                if not close(md.array, cq_dagger_array(m)):
-                    rep.fail("dagger_not_adjoint:" + "+".join(tags), case,
-                             "circuit.dagger().eval(mixed=True) is not the conjugate transpose")
-            elif why != "f3":
-                rep.fail("eval_raises:" + err_class(why), case, "dagger: " + repr(why))
+    #     their daggers included; scalars pure and mixed: a mixed scalar is the weight z itself, its
+    #     adjoint the weight conj(z) — not |z|^2).
+    if adjoint is True:
+        adjoint = rng.random() < 0.6
+    if adjoint and not any(box_tag(b) == "Channel" for b in c.boxes):
+        check_adjoint(rep, c, m, case, tags, double=(adjoint == "always" or len(c.boxes) <= 3))
     # --- clause (c): trace preservation and the distributions
     tp = tp_class(c)
     if tp:
@@ -1825,6 +1882,110 @@ def scalar_born_stream(rep, drv, rng, rounds, budget, per_round=None):
                                                               np.round(want, 6).tolist()))
 
 
+# ------------------------------------------------------------------ mixed scalars: every route, adjoints
+
+MIXED_CONTEXTS = ("box", "circuit", "left_of_measured", "right_of_measured", "inside_open", "inside_discarded",
+                  "with_pure_scalar", "two_routes", "bits", "nondestructive", "encode", "mixedstate",
+                  "its_dagger", "two_qubits")
+
+
+def mixed_scalar_context(rng, s, ctx, exact):
+    """A small circuit (0-2 qubits) of the given family around the mixed scalar box s."""
+    qc, g = lib()
+    if ctx == "box":
+        return s                                               # the box itself: Scalar.dagger directly
+    if ctx == "circuit":
+        return qc.Id(0) @ s                                    # Circuit.dagger over the boxes
+    if ctx in ("left_of_measured", "right_of_measured"):
+        st = small_state(rng, 1) >> qc.Measure(destructive=rng.random() < 0.7)
+        return s @ st if ctx.startswith("left") else st @ s
+    if ctx == "inside_open":
+        return place_scalar(rng, small_state(rng, 1), s, "inside")
+    if ctx == "inside_discarded":
+        return place_scalar(rng, small_state(rng, 1) >> qc.Discard(), s, "inside")
+    if ctx == "with_pure_scalar":                              # Born rule on the one, not on the other
+        other = region_scalar(rng, rng.choice(SCALAR_FORMS[:4]), rng.choice(("complex", "imaginary",
+                                                                              "negative")), exact=exact)
+        return rng.choice([s @ other, other @ s])
+    if ctx == "two_routes":
+        other = region_scalar(rng, "mixed", rng.choice(SCALAR_REGIONS[:4]), exact=exact)
+        return s @ g.Ket(rng.randrange(2)) @ other >> g.Bra(rng.randrange(2))
+    if ctx == "bits":
+        gate = rng.choice([stochastic_gate_11(rng), g.Copy(), general_gate(rng, 7)])
+        c = g.Bits(*[rng.randrange(2) for _ in range(len(gate.dom))]) if len(gate.dom) else qc.Id(0)
+        return place_scalar(rng, c >> gate, s, rng.choice(["left", "right", "inside"]))
+    if ctx == "nondestructive":
+        return g.Ket(rng.randrange(2)) >> g.H >> qc.Measure(destructive=False) \
+            >> qc.Id(qc.qubit @ qc.bit) @ s
+    if ctx == "encode":
+        return place_scalar(rng, g.Bits(rng.randrange(2)) >> qc.Encode() >> rng.choice([g.H, g.S, g.Y]),
+                            s, rng.choice(["left", "right", "inside"]))
+    if ctx == "mixedstate":
+        return place_scalar(rng, qc.MixedState() >> rng.choice([g.X, g.T, g.H]) >> qc.Measure(),
+                            s, rng.choice(["left", "right", "inside"]))
+    if ctx == "its_dagger":                                    # the box a first dagger() returned, used again
+        return place_scalar(rng, small_state(rng, 1), s.dagger(), "inside") >> qc.Measure() @ s
+    return place_scalar(rng, small_state(rng, 2) >> qc.Measure() @ qc.Discard(), s, "inside")
+
+
+def mixed_scalar_stream(rep, drv, rng, rounds, budget, per_combo=1, quick=False):
+    """Scalar boxes on which the Born rule has ALREADY been applied, built through every calling
+    convention (MIXED_ROUTES) with data in every region (positive / negative / imaginary / complex /
+    zero; exact and float), inside circuits of every small family (MIXED_CONTEXTS).  A mixed scalar
+    is the weight z itself in the mixed evaluation (wire-by-wire semantics and the model, through
+    check_circuit); the dagger of the circuit evaluates to the adjoint of its evaluation (a weight
+    conj(z), not |z|^2), the double dagger to the evaluation itself; the daggered circuit is checked
+    as a circuit of its own as well."""
+    n = 0
+    for rd in range(rounds):
+        combos = [(route, region) for route in MIXED_ROUTES for region in SCALAR_REGIONS]
+        if quick:
+            # quick tier: every route with complex data and two of the other four regions (all regions
+            # over the routes); the thorough tier runs the full product several times
+            rest = [r for r in SCALAR_REGIONS if r != "complex"]
+            k = rng.randrange(4)
+            combos = [(route, region) for i, route in enumerate(MIXED_ROUTES)
+                      for region in ("complex", rest[(2 * i + k) % 4], rest[(2 * i + k + 1) % 4])]
+        rng.shuffle(combos)
+        for idx, (route, region) in enumerate(combos):
+            for rep_i in range(per_combo):
+                sub = random.Random(rng.getrandbits(64))
+                ctx = MIXED_CONTEXTS[(n + rd) % len(MIXED_CONTEXTS)]
+                n += 1
+                exact = region == "zero" or n % 4 != 3
+                case = dict(route=route, region=region, context=ctx, exact=exact)
+                try:
+                    if exact:
+                        t = sub.choice(SCALARS_BY_REGION[region])
+                        z = qgen.number_of(t, sub.choice(["auto", "auto", "complex", "np.complex128"]))
+                    else:
+                        z = region_scalar(sub, "scalar", region, exact=False).data
+                    s = mixed_scalar_by(route, z)
+                    case["scalar"] = "%r [data %s]" % (s, qgen.show_number(s.data))
+                    c = mixed_scalar_context(sub, s, ctx, exact)
+                except Exception as exc:  # noqa
+                    rep.fail("construction_raises:" + err_class(exc), case, repr(exc))
+                    continue
+                rep.count("mixed_scalar:%s:%s" % (route, region))
+                rep.count("mixed_scalar_context:" + ctx)
+                rep.count("mixed_scalar_class:" + mixed_route_of(s))
+                if not s.is_mixed:
+                    rep.fail("mixed_scalar_not_mixed", case, "%r has is_mixed = %r" % (s, s.is_mixed))
+                    continue
+                m = check_circuit(rep, drv, c, "mixed_scalars", budget, sub, adjoint="always")
+                if m is None:
+                    continue
+                # the daggered circuit on its own: semantics, model, is_mixed, and ITS adjoint
+                d, why = guarded(rep, c, "dagger()", lambda: c.dagger())
+                if why is not None:
+                    if why != "f3":
+                        rep.fail("dagger_raises:" + err_class(why), dict(case, **describe(c)), repr(why))
+                    continue
+                if (n + rd) % (5 if quick else 2) == 0 and not any(bad_encode(b) for b in d.boxes):
+                    check_circuit(rep, drv, d, "mixed_scalars_dagger", budget, sub, adjoint="always")
+    return n
+
+
 # ------------------------------------------------------------------ CQMap expression stream
 
 def rand_dims(rng, n, vals=(2, 2, 3)):
@@ -2051,6 +2212,15 @@ def run(tier, seed, replay=None):
         "process; scalar_born (every scalar form x data region, one or two scalar boxes left of / right of "
         "/ inside a state of 1-2 qubits: amplitudes = state x scalar amplitudes computed from the data, "
         "doubling, and |amplitude|^2 as non-negative reals from Measure / measure() / get_counts()); "
+        "mixed_scalars (scalar boxes on which the Born rule has already been applied, built through every "
+        "calling convention — MixedScalar(z), scalar(z, is_mixed=True), scalar(z, True), Scalar(z, "
+        "is_mixed=True), with a name, all positional, a user subclass — x data positive / negative / "
+        "imaginary / complex / zero, exact and float, as a box, a one-box circuit, left / right of / inside "
+        "measured, discarded and open states, beside pure scalars, other mixed scalars, bits and classical "
+        "gates, non-destructive Measure, Encode, MixedState, together with its own dagger: evaluation = the "
+        "weight itself (semantics + model), circuit.dagger() evaluates to the adjoint and the double dagger "
+        "to the evaluation, the daggered circuit checked as a circuit of its own); the adjoint oracle of "
+        "every stream now includes circuits with mixed scalars; "
         "plus a Born-rule stream (random pure states of 1-3 qubits, every "
         "Measure variant, partial discards, all Encode/MixedState adjoints) and a CQMap expression "
         "stream (then/tensor/dagger/swap/measure/encode/discard/pure/classical/literals over "
@@ -2090,6 +2260,7 @@ def run(tier, seed, replay=None):
     n_circuits = dict(general=15, tp=12, pure=9) if quick else dict(general=225, tp=185, pure=110)
     n_born = 3 if quick else 55
     n_scalar_rounds = 1 if quick else 6
+    n_mixed_rounds = 1 if quick else 3
     n_variant_rounds = 1 if quick else 8
     n_late, n_weight, n_classical = (10, 6, 6) if quick else (140, 80, 80)
     n_batch = 8 if quick else 110
@@ -2139,6 +2310,10 @@ def run(tier, seed, replay=None):
         scalar_born_stream(rep, drv, random.Random(rng.getrandbits(64)), n_scalar_rounds, budget,
                            per_round=10 if quick else None)
         lap("scalar_born")
+        n_ms = mixed_scalar_stream(rep, drv, random.Random(rng.getrandbits(64)), n_mixed_rounds, budget,
+                                   per_combo=1, quick=quick)
+        rep.extra["mixed_scalar_cases"] = n_ms
+        lap("mixed_scalars")
         cqexpr_stream(rep, drv, random.Random(rng.getrandbits(64)), n_expr)
         lap("cqexpr")
         history_stream(rep, drv, hist_seed, n_history, budget, hist_proc)
